@@ -104,6 +104,7 @@ type env struct {
 	calls  []call
 	callMu sync.Mutex
 	failAt int
+	slow   bool // timeout mode: every handler invocation takes one (virtual) second
 	failSet map[int]bool
 	panicK bool
 	up     bool
@@ -143,6 +144,9 @@ func (e *env) open() error {
 	// two handlers: the first always succeeds, the second fails for failAt
 	s.OnDelete(func(ctx context.Context, h uint64) error {
 		_, err := s.GetByHeight(ctx, h)
+		if e.slow {
+			time.Sleep(time.Second)
+		}
 		e.callMu.Lock()
 		defer e.callMu.Unlock()
 		e.calls = append(e.calls, call{H: int(h), Handler: 1, Readable: err == nil, Out: "ok"})
@@ -465,6 +469,24 @@ func (e *env) doOp(op map[string]any, idx int, v variant, skipWait, last bool) (
 			}
 			e.panicK = (idx+ev.FailAt)%2 == 1
 			ctx, cancel := context.WithTimeout(bg, time.Hour)
+			if mbt.Str(op, "fk") == "timeout" && ev.FailAt != 0 {
+				// the caller's deadline is placed so that 95% of it has elapsed exactly when deleteSingle reaches failAt:
+				// one virtual second per removed header (the first handler sleeps), j headers exist below failAt
+				j := 0 // (taken from the model's prediction of what is removed: it only places the deadline, it is no verdict)
+				for _, g := range ints(op["gone"]) {
+					if g < ev.FailAt {
+						j++
+					}
+				}
+				if j == 0 {
+					j = 1
+				}
+				cancel()
+				e.failAt = 0
+				e.slow = true
+				d := time.Duration(float64(time.Duration(j)*time.Second-500*time.Millisecond) / 0.95)
+				ctx, cancel = context.WithTimeout(bg, d)
+			}
 			if (v.parallel && last) || mbt.Bool(op, "par") {
 				old := store.VerifSetDeleteParallelThreshold(2)
 				err = e.st.DeleteRange(ctx, uint64(ev.From), uint64(ev.To))
@@ -474,6 +496,7 @@ func (e *env) doOp(op map[string]any, idx int, v variant, skipWait, last bool) (
 			}
 			cancel()
 			e.failAt = 0
+			e.slow = false
 			e.failSet = nil
 		case "stop":
 			err = e.stop()
@@ -629,7 +652,7 @@ func runOnce(t *testing.T, id int, c map[string]any, cacheSz int, v variant, bas
 				continue // model crash behaviours are not replayed directly (the harness enumerates prefixes itself)
 			}
 			lastLogStart = e.rs.LogLen()
-			skip := v.nowait && opName(i) == "append" && opName(i+1) == "delete" && i < len(baseEvents)
+			skip := v.nowait && opName(i) == "append" && (opName(i+1) == "delete" || opName(i+1) == "stop") && i < len(baseEvents)
 			if v.failOp == i && (opName(i) == "append" || opName(i) == "sync" || opName(i) == "stop") {
 				e.rs.FailWrites(0, v.failN)
 			}
@@ -646,7 +669,7 @@ func runOnce(t *testing.T, id int, c map[string]any, cacheSz int, v variant, bas
 			if ev.Res == "panic" {
 				break
 			}
-			if v.nowait && i > 0 && opName(i-1) == "append" && opName(i) == "delete" {
+			if v.nowait && i > 0 && opName(i-1) == "append" && (opName(i) == "delete" || opName(i) == "stop") {
 				// the write log of the unawaited append is merged into this step: no write-level comparison
 				ev.WS = nil
 			}
